@@ -38,6 +38,8 @@ fn main() {
         "c01" => c_isa::run_c01(&mut out, seed, thorough),
         "c02" => c_asm::run_c02(&mut out, seed, thorough),
         "c06" => c_asm::run_c06(&mut out, seed, thorough),
+        "c03" => c_asm::run_c03(&mut out, seed, thorough),
+        "c16" => c_asm::run_c16(&mut out, seed, thorough),
         "c04" => c_isa::run_c04(&mut out, seed, thorough),
         "c05" => c_mach::run_c05(&mut out, seed, thorough),
         "c07" => c_mach::run_c07(&mut out, seed, thorough),
